@@ -7,7 +7,9 @@ rows = []
 for res in sorted(glob.glob(os.path.join(VERIF, ".work", "seed-results", "C*-m*.json"))):
     name = os.path.basename(res)[:-5]
     prop, m = name.split("-")
-    src = "/tmp/seed/out-%s/%s" % (prop, m)
+    src = "%s/out-%s/%s" % (os.environ.get("SEEDROOT", "/tmp/seed"), prop, m)
+    if not os.path.isdir(src):
+        src = "/tmp/seed2/out-%s/%s" % (prop, m)
     try:
         r = json.load(open(res))
     except Exception:
